@@ -2,7 +2,7 @@
    class (inline, not referenced) accepts a datum exactly when the specification of deserialization accepts it. *)
 From Coq Require Import List String ZArith Bool Arith Lia.
 From AV Require Import Core.Json Core.Errors Core.Text Small.Ordering Deser.Model Deser.Spec Deser.Unfold Deser.Loops
-  Core.Util Schema.Json Schema.Unfold Schema.Build Schema.Proofs Schema.ConProofs Schema.ShapeProofs Schema.AgreeProofs.
+  Core.Util Schema.Json Schema.Unfold Schema.Build Schema.Proofs Schema.ConProofs Schema.ShapeProofs Schema.AgreeProofs Schema.DepReqAgree.
 Import ListNotations.
 Open Scope string_scope.
 
@@ -32,7 +32,7 @@ Section Obj.
     && negb (fd_fallback fd && negb (fd_required fd)).
 
   Definition flat_cls (bf : nat) (cd : cdef) : Prop :=
-    elems_sorted cd = cd_fields cd /\ cd_depreq cd = [] /\ forallb (flat_field bf) (cd_fields cd) = true
+    elems_sorted cd = cd_fields cd /\ wf_depreq cd = true /\ forallb (flat_field bf) (cd_fields cd) = true
     /\ nodup_strs (map (fun fd => o_aliaser o (fd_alias fd)) (cd_fields cd)) = true.
 
   (* ---- the object keywords, evaluated *)
@@ -87,37 +87,59 @@ Section Obj.
 
   Definition no_fb (fd : fdef) : bool := negb (fd_fallback fd && negb (fd_required fd)).
 
+  (* a field absent from the datum must be optional and not required by a present one *)
+  Definition field_accepts_dr (f : nat) (cd : cdef) (kvs : list (string * pyval)) (fd : fdef) : bool :=
+    field_accepts f kvs fd
+    && (dict_has (o_aliaser o (fd_alias fd)) kvs || negb (existsb (fun r => dict_has r kvs) (requiring o cd (fd_name fd)))).
+
+  Lemma spec_field_dr f cd kvs fd :
+    o_fallback o = false -> no_fb fd = true ->
+    (forall x, dict_get (o_aliaser o (fd_alias fd)) kvs = Some x -> sp f None (field_ty fd) x <> SFuel) ->
+    (match spec_field u o f cd kvs fd with None => true | _ => false end) = false
+    /\ (match spec_field u o f cd kvs fd with Some None => true | _ => false end) = negb (field_accepts_dr f cd kvs fd).
+  Proof.
+    intros Hfb Hfd Hnf. unfold spec_field, field_accepts_dr, field_accepts, dict_has.
+    rewrite Hfb, orb_false_r. unfold no_fb in Hfd. apply negb_true_iff in Hfd. rewrite Hfd. cbn [negb]. rewrite orb_true_r.
+    destruct (dict_get (o_aliaser o (fd_alias fd)) kvs) as [x|] eqn:Egx.
+    - rewrite field_spec. pose proof (Hnf x eq_refl) as Hx.
+      destruct (sp f None (field_ty fd) x); cbn [accepts negb andb orb]; try contradiction; split; reflexivity.
+    - destruct (fd_required fd); cbn [negb andb orb]; [split; reflexivity|].
+      destruct (existsb _ (requiring o cd (fd_name fd))); cbn [negb andb orb]; split; reflexivity.
+  Qed.
+
   Lemma spec_fields_gen f cd kvs fields :
-    cd_depreq cd = [] -> o_fallback o = false ->
+    o_fallback o = false ->
     forallb no_fb fields = true ->
     (forall fd, In fd fields -> forall x, dict_get (o_aliaser o (fd_alias fd)) kvs = Some x -> sp f None (field_ty fd) x <> SFuel) ->
     existsb (fun r : option (option (option (string * value))) => match r with None => true | _ => false end)
             (map (spec_field u o f cd kvs) fields) = false
     /\ existsb (fun r : option (option (option (string * value))) => match r with Some None => true | _ => false end)
-               (map (spec_field u o f cd kvs) fields) = negb (forallb (field_accepts f kvs) fields).
+               (map (spec_field u o f cd kvs) fields) = negb (forallb (field_accepts_dr f cd kvs) fields).
   Proof.
-    intros Hdep Hfb. induction fields as [|fd fields IH]; intros Hflat Hnf; [split; reflexivity|].
+    intros Hfb. induction fields as [|fd fields IH]; intros Hflat Hnf; [split; reflexivity|].
     cbn [forallb] in Hflat. apply andb_true_iff in Hflat. destruct Hflat as [Hfd Hrest].
     destruct (IH Hrest (fun fd' Hin => Hnf fd' (or_intror Hin))) as [IH1 IH2].
-    cbn [map existsb forallb]. rewrite IH1, IH2. unfold spec_field.
-    assert (Efa : field_accepts f kvs fd = match dict_get (o_aliaser o (fd_alias fd)) kvs with
-                                           | Some x => accepts (sp f None (field_ty fd) x)
-                                           | None => negb (fd_required fd) end) by reflexivity.
-    rewrite Efa. clear Efa.
-    unfold requiring. rewrite Hdep. cbn [flat_map existsb]. rewrite Hfb, orb_false_r.
-    unfold no_fb in Hfd. apply negb_true_iff in Hfd. rewrite Hfd.
-    cbn [negb]. rewrite orb_true_r.
-    destruct (dict_get (o_aliaser o (fd_alias fd)) kvs) as [x|] eqn:Egx.
-    - rewrite field_spec.
-      pose proof (Hnf fd (or_introl eq_refl) x Egx) as Hx.
-      destruct (sp f None (field_ty fd) x); cbn [accepts negb andb orb]; try contradiction; split; reflexivity.
-    - destruct (fd_required fd); cbn [negb andb orb]; split; reflexivity.
+    destruct (spec_field_dr f cd kvs fd Hfb Hfd (Hnf fd (or_introl eq_refl))) as [H1 H2].
+    cbn [map existsb forallb]. rewrite IH1, IH2, H1, H2. split; [reflexivity|].
+    destruct (field_accepts_dr f cd kvs fd), (forallb (field_accepts_dr f cd kvs) fields); reflexivity.
+  Qed.
+
+  Lemma accepts_dr_split f cd kvs fields :
+    forallb (field_accepts_dr f cd kvs) fields
+    = forallb (field_accepts f kvs) fields
+      && forallb (fun fd => dict_has (o_aliaser o (fd_alias fd)) kvs
+                            || negb (existsb (fun r => dict_has r kvs) (requiring o cd (fd_name fd)))) fields.
+  Proof.
+    induction fields as [|fd r IH]; [reflexivity|]. cbn [forallb]. rewrite IH. unfold field_accepts_dr.
+    set (a := field_accepts f kvs fd). set (b := forallb (field_accepts f kvs) r).
+    set (c0 := (dict_has (o_aliaser o (fd_alias fd)) kvs || negb (existsb (fun r0 => dict_has r0 kvs) (requiring o cd (fd_name fd))))%bool).
+    set (d0 := forallb _ r). destruct a, b, c0, d0; reflexivity.
   Qed.
 
   (* ---- THE STATEMENT for a class given inline, whatever makes its fields agree *)
   Theorem class_agree_gen c bf f ign d :
     (refs (cname c) && negb ign)%bool = false ->
-    elems_sorted (get_cls u c) = cd_fields (get_cls u c) -> cd_depreq (get_cls u c) = [] ->
+    elems_sorted (get_cls u c) = cd_fields (get_cls u c) -> wf_depreq (get_cls u c) = true ->
     forallb no_fb (cd_fields (get_cls u c)) = true -> o_fallback o = false ->
     (forall fd, In fd (cd_fields (get_cls u c)) -> forall x, sub_value d x -> sp f None (field_ty fd) x <> SFuel) ->
     (forall fd, In fd (cd_fields (get_cls u c)) -> forall x, sub_value d x -> in_domain x = true ->
@@ -127,29 +149,31 @@ Section Obj.
   Proof.
     intros Href Hsorted Hdep Hflat Hfb Hnofuel Hagree Hd.
     rewrite build_TObj, Href. unfold object_schema. cbv zeta. rewrite Hsorted.
-    unfold depreq_schema. rewrite Hdep. cbn [map fold_right]. rewrite app_nil_r.
-    set (cd := get_cls u c) in *.
+    set (cd := get_cls u c) in *. set (dr := depreq_schema o cd).
     set (props := map (fun fd => (o_aliaser o (fd_alias fd), apply_con (fd_con fd) (B bf false (fd_ty fd)))) (cd_fields cd)).
     set (required := map (fun fd => o_aliaser o (fd_alias fd)) (filter fd_required (cd_fields cd))).
     set (kws := ([KwType [JObject]] ++ match props with [] => [] | _ :: _ => [KwProperties props] end
                  ++ match required with [] => [] | _ :: _ => [KwRequired required] end
-                 ++ (if o_addprops o then [] else [KwAddProps (JBoolS false)]))%list).
+                 ++ (if o_addprops o then [] else [KwAddProps (JBoolS false)])
+                 ++ match dr with [] => [] | _ :: _ => [KwDepReq dr] end)%list).
     rewrite spec_TObj_S. cbv zeta. fold cd.
     assert (Hnull : nullable kws = false).
-    { unfold kws, nullable. rewrite !existsb_app. destruct props, required, (o_addprops o); reflexivity. }
+    { unfold kws, nullable. rewrite !existsb_app. destruct props, required, (o_addprops o), dr; reflexivity. }
     assert (Hnames : prop_names kws = map fst props).
-    { unfold kws, prop_names. rewrite !flat_map_app. destruct props as [|p0 pr] eqn:Ep, required, (o_addprops o); cbn; rewrite ?app_nil_r; reflexivity. }
+    { unfold kws, prop_names. rewrite !flat_map_app. destruct props as [|p0 pr] eqn:Ep, required, (o_addprops o), dr; cbn; rewrite ?app_nil_r; reflexivity. }
     assert (Hpats : prop_patterns kws = []).
-    { unfold kws, prop_patterns. rewrite !flat_map_app. destruct props, required, (o_addprops o); reflexivity. }
+    { unfold kws, prop_patterns. rewrite !flat_map_app. destruct props, required, (o_addprops o), dr; reflexivity. }
     rewrite jvalid_JS, Hnull. cbn [andb orb].
     destruct d as [|x|z|fl|s|l|kvs|tg];
-      try (unfold kws; cbn [app forallb kw_valid flat_kw type_ok memt existsb jtype_eqb]; try destruct fl; reflexivity).
+      try (unfold kws; cbn [app forallb kw_valid flat_kw type_ok memt existsb jtype_eqb]; rewrite ?forallb_app; cbn [forallb kw_valid flat_kw type_ok memt existsb jtype_eqb andb]; try destruct fl; reflexivity).
     (* an object *)
     assert (Hnofuel' : forall fd, In fd (cd_fields cd) -> forall x, dict_get (o_aliaser o (fd_alias fd)) kvs = Some x ->
                                   sp f None (field_ty fd) x <> SFuel).
     { intros fd Hin x Hg. apply Hnofuel; [exact Hin|]. cbn [sub_value]. apply in_map_iff.
       exists (o_aliaser o (fd_alias fd), x). split; [reflexivity|apply dict_get_in; exact Hg]. }
-    destruct (spec_fields_gen f cd kvs (cd_fields cd) Hdep Hfb Hflat Hnofuel') as [Hnone Hrej]. rewrite Hnone, Hrej.
+    destruct (spec_fields_gen f cd kvs (cd_fields cd) Hfb Hflat Hnofuel') as [Hnone Hrej]. rewrite Hnone, Hrej.
+    rewrite accepts_dr_split. change (forallb _ (cd_fields cd)) with (no_missing_dependency o cd kvs) at 2.
+    rewrite <- (depreq_keyword_is_the_spec_rule o cd kvs Hdep). fold dr.
     assert (HV : forallb (field_valid (jvalid false ds jf) bf kvs) (cd_fields cd) = forallb (field_accepts f kvs) (cd_fields cd)).
     { apply forallb_in_ext. intros fd Hin. unfold field_valid, field_accepts.
       destruct (dict_get (o_aliaser o (fd_alias fd)) kvs) as [x|] eqn:Eg; [|reflexivity].
@@ -157,7 +181,8 @@ Section Obj.
       cbn [sub_value]. apply in_map_iff. exists (o_aliaser o (fd_alias fd), x). split; [reflexivity|apply dict_get_in; exact Eg]. }
     assert (Hkw : forallb (fun k => kw_valid false ds jf kws k (PDict kvs)) kws
                   = forallb (field_valid (jvalid false ds jf) bf kvs) (cd_fields cd)
-                    && (o_addprops o || forallb (fun kv : string * pyval => existsb (String.eqb (fst kv)) (map (fun fd => o_aliaser o (fd_alias fd)) (cd_fields cd))) kvs)).
+                    && (o_addprops o || forallb (fun kv : string * pyval => existsb (String.eqb (fst kv)) (map (fun fd => o_aliaser o (fd_alias fd)) (cd_fields cd))) kvs)
+                    && depreq_ok dr (PDict kvs)).
     { rewrite <- props_valid_fields. fold props. fold required.
       assert (Hadd : forall kv : string * pyval, negb (additional kws (fst kv)) = existsb (String.eqb (fst kv)) (map (fun fd => o_aliaser o (fd_alias fd)) (cd_fields cd))).
       { intros kv. unfold additional. rewrite Hnames, Hpats. cbn [existsb negb]. rewrite andb_true_r, negb_involutive.
@@ -169,15 +194,20 @@ Section Obj.
       assert (HR : forallb (fun k => kw_valid false ds jf kws k (PDict kvs)) match required with [] => [] | _ :: _ => [KwRequired required] end
                    = forallb (fun r => dict_has r kvs) required).
       { destruct required; [reflexivity|]. cbn [forallb kw_valid flat_kw required_ok]. rewrite andb_true_r. reflexivity. }
-      rewrite HP, HR. destruct (o_addprops o); cbn [forallb orb].
-      - rewrite !andb_true_r. reflexivity.
+      assert (HD : forallb (fun k => kw_valid false ds jf kws k (PDict kvs)) match dr with [] => [] | _ :: _ => [KwDepReq dr] end
+                   = depreq_ok dr (PDict kvs)).
+      { destruct dr; [reflexivity|]. cbn [forallb kw_valid flat_kw]. rewrite andb_true_r. reflexivity. }
+      rewrite HP, HR, HD. destruct (o_addprops o); cbn [forallb orb app].
+      - set (a := props_valid _ _ _). set (b := forallb _ required). set (c0 := depreq_ok _ _). destruct a, b, c0; reflexivity.
       - cbn [kw_valid]. rewrite andb_true_r.
         assert (HA : forallb (fun kv : string * pyval => negb (additional kws (fst kv)) || jvalid false ds jf (JBoolS false) (snd kv)) kvs
                      = forallb (fun kv : string * pyval => existsb (String.eqb (fst kv)) (map (fun fd => o_aliaser o (fd_alias fd)) (cd_fields cd))) kvs).
         { apply forallb_in_ext. intros kv _. rewrite jvalid_bool, orb_false_r. apply Hadd. }
-        rewrite HA, andb_assoc. reflexivity. }
+        rewrite HA. set (a := props_valid _ _ _). set (b := forallb _ required). set (c0 := depreq_ok _ _). set (e0 := forallb _ kvs).
+        destruct a, b, c0, e0; reflexivity. }
     rewrite Hkw, HV, no_additional. cbn [ocons all_valid forallb negb].
     destruct (forallb (field_accepts f kvs) (cd_fields cd)); cbn [negb andb]; [|reflexivity].
+    destruct (depreq_ok dr (PDict kvs)); cbn [negb andb]; rewrite ?andb_false_r; [|reflexivity]. rewrite andb_true_r.
     destruct (o_addprops o); cbn [negb andb orb]; [reflexivity|].
     destruct (filter _ kvs); reflexivity.
   Qed.
@@ -251,13 +281,13 @@ Section Obj.
   Qed.
 
   Definition flat_cls_b (bf : nat) (cd : cdef) : bool :=
-    sorted_kept cd && match cd_depreq cd with [] => true | _ => false end && forallb (flat_field bf) (cd_fields cd)
+    sorted_kept cd && wf_depreq cd && forallb (flat_field bf) (cd_fields cd)
     && nodup_strs (map (fun fd => o_aliaser o (fd_alias fd)) (cd_fields cd)).
 
   Lemma flat_cls_b_ok bf cd : flat_cls_b bf cd = true -> flat_cls bf cd.
   Proof.
     unfold flat_cls_b, flat_cls. intros H. do 3 (apply andb_true_iff in H; destruct H as [H ?]).
-    split; [apply sorted_kept_ok; assumption|]. split; [destruct (cd_depreq cd); [reflexivity|discriminate]|]. split; assumption.
+    split; [apply sorted_kept_ok; assumption|]. split; [assumption|]. split; assumption.
   Qed.
 
   Definition flat_hyps (c bf : nat) (ign : bool) (d : pyval) : bool :=
